@@ -8,6 +8,10 @@ CLAIMS = {
          "The end-to-end composition C01_complete is not yet one theorem: layers are proved separately and composed through hypotheses checked on every run (graph well-formedness, trace facts). Known findings F01-F07 are hypotheses of the partial statements.", "8/C01"),
  'C02': ("Lean theorems on the model of search_paths: every returned path is the entry followed by a matched walk (retsub resumes at its own callsub's return point) ending in a leaf, no block twice per activation, no recursion, no validated block (searchPaths_valid); together with searchPaths_complete the reported set is exactly the set of such walks; correspondence of the reported path multisets of all nine detectors + independent executable validity predicate on the real tool's output",
          "Renderings (short notation / JSON blocks) are checked by parsing them back in the harness; their Lean statement is partial.", "8/C02"),
+ 'C03': ("Lean theorems: a path is reported only if it is a matched walk to a leaf with no validated block, so if every such walk has a validated block nothing is reported (C03_no_report); exactness of the set domains and of the fee chain; direct checks validate their block; + correspondence of contexts and paths + EXACT verdict oracle on the systematic direct-check family (field x operator x operand order x constant x consumption form x unknown-operand variants), where the concrete semantics coincides with the literal reading and every (size,index) / fee representative is enumerated",
+         "The distributive-framework argument (computed context = union over paths) is not yet a Lean theorem; exactness is decided on the direct-check family by exhaustive region enumeration.", "8/C03"),
+ 'C12': ("Lean model of copy_main_cfg / construct_function incl. error blocks and the used-subroutine closure (Function.lean), tied by correspondence of the function graph and all contexts for every sampled dispatch path; oracle: contexts are sound w.r.t. exactly the accepting executions whose block trace starts with the path; the contract's graph is unchanged by building functions; results do not depend on the order in which functions are built",
+         "Theorems specific to construct_function are in progress; the flow theorems apply to the function graph as to any graph. Known findings F15, F16.", "8/C12"),
  'C04': ("Lean theorems about the model of parse_teal's four passes + correspondence of block structure, ordered successor/predecessor lists, retained set with /repo + check that the block trace of every concrete execution of the Lean AVM semantics is a matched walk of the tool's graph",
          "CFG construction is hand-modelled (Cfg.lean) and tied by differential execution on corpus + generated layouts.", "8/C04"),
  'C05': ("Lean model of subroutine discovery, caller/return-point tables and function construction (Cfg.lean, Function.lean) tied by correspondence of the subroutine tables at contract and function level; independent executable closure oracle (subroutines = callsub targets, blocks = intraprocedural closure, exits, call sites, return points) on the real tool's output",
